@@ -57,132 +57,301 @@ theorem count_adm_le (N : Int) : ∀ (l : List Ent) (k : Nat), Ranked k l →
       · exact Or.inl ih
       · right; push_cast at ih ⊢; omega
 
-/-- the invariant of the limiter in isolation (with updates). -/
+/-- the invariant of the composed system (with updates). -/
 structure LInv (s : St) : Prop where
   tmp_eq : s.tmp = s.ents.length
   ranked : Ranked 1 s.ents
-  adm_le : ∀ e ∈ s.ents, e.adm = true → e.x ≤ s.hi
+  adm_le : s.unl = false → ∀ e ∈ s.ents, e.adm = true → e.x ≤ s.hi
   now_eq : s.now = (s.ents.countP Ent.isHolding : Nat)
   lim_le : s.lim ≤ s.hi
   hi_nonneg : 0 ≤ s.hi
+  unl_lim : s.unl = false → 0 < s.lim
 
 theorem linv_init (lim : Int) (h : 0 ≤ lim) : LInv (St.init lim) :=
-  ⟨rfl, trivial, by simp [St.init], rfl, Int.le_refl _, h⟩
+  ⟨rfl, trivial, by simp [St.init], rfl, Int.le_refl _, h, by simp [St.init]⟩
 
 theorem linv_step {s t : St} (h : LInv s) (st : Step s t) : LInv t := by
-  obtain ⟨h1, h2, h3, h4, h5, h6⟩ := h
+  obtain ⟨h1, h2, h3, h4, h5, h6, h7⟩ := h
   cases st with
   | arrive =>
-    refine ⟨?_, ?_, ?_, ?_, h5, h6⟩
+    refine ⟨?_, ?_, ?_, ?_, h5, h6, h7⟩
     · simp only [List.length_append, List.length_cons, List.length_nil]; push_cast; omega
     · rw [ranked_append]; refine ⟨h2, ?_⟩
       simp only [Ranked, and_true]; push_cast; omega
-    · intro e he ha
+    · intro hu e he ha
       rcases List.mem_append.mp he with he | he
-      · exact h3 e he ha
+      · exact h3 hu e he ha
       · simp at he; subst he; simp [Ent.adm] at ha
     · simp [List.countP_append, Ent.isHolding, h4]
   | checkOk pre post x he hx =>
     rw [he] at h1 h2 h3 h4
-    refine ⟨?_, ranked_setpc h2, ?_, ?_, h5, h6⟩
+    refine ⟨?_, ranked_setpc h2, ?_, ?_, h5, h6, h7⟩
     · simpa using h1
-    · intro e hm ha
+    · intro hu e hm ha
       rcases List.mem_append.mp hm with hm | hm
-      · exact h3 e (List.mem_append.mpr (Or.inl hm)) ha
+      · exact h3 hu e (List.mem_append.mpr (Or.inl hm)) ha
       · rcases List.mem_cons.mp hm with hm | hm
-        · subst hm; simp only; omega
-        · exact h3 e (List.mem_append.mpr (Or.inr (List.mem_cons_of_mem _ hm))) ha
+        · subst hm
+          have hl := h7 hu
+          rcases hx with hx | hx
+          · omega
+          · simp only; omega
+        · exact h3 hu e (List.mem_append.mpr (Or.inr (List.mem_cons_of_mem _ hm))) ha
     · simpa [List.countP_append, List.countP_cons, Ent.isHolding] using h4
   | checkNo pre post x he hx =>
     rw [he] at h1 h2 h3 h4
-    refine ⟨?_, ranked_setpc h2, ?_, ?_, h5, h6⟩
+    refine ⟨?_, ranked_setpc h2, ?_, ?_, h5, h6, h7⟩
     · simpa using h1
-    · intro e hm ha
+    · intro hu e hm ha
       rcases List.mem_append.mp hm with hm | hm
-      · exact h3 e (List.mem_append.mpr (Or.inl hm)) ha
+      · exact h3 hu e (List.mem_append.mpr (Or.inl hm)) ha
       · rcases List.mem_cons.mp hm with hm | hm
         · subst hm; simp [Ent.adm] at ha
-        · exact h3 e (List.mem_append.mpr (Or.inr (List.mem_cons_of_mem _ hm))) ha
+        · exact h3 hu e (List.mem_append.mpr (Or.inr (List.mem_cons_of_mem _ hm))) ha
     · simpa [List.countP_append, List.countP_cons, Ent.isHolding] using h4
   | inc pre post x he =>
     rw [he] at h1 h2 h3 h4
-    refine ⟨?_, ranked_setpc h2, ?_, ?_, h5, h6⟩
+    refine ⟨?_, ranked_setpc h2, ?_, ?_, h5, h6, h7⟩
     · simpa using h1
-    · intro e hm ha
+    · intro hu e hm ha
       rcases List.mem_append.mp hm with hm | hm
-      · exact h3 e (List.mem_append.mpr (Or.inl hm)) ha
+      · exact h3 hu e (List.mem_append.mpr (Or.inl hm)) ha
       · rcases List.mem_cons.mp hm with hm | hm
-        · subst hm; exact h3 ⟨.willInc, x⟩ (by simp) (by simp [Ent.adm])
-        · exact h3 e (List.mem_append.mpr (Or.inr (List.mem_cons_of_mem _ hm))) ha
+        · subst hm; exact h3 hu ⟨.willInc, x⟩ (by simp) (by simp [Ent.adm])
+        · exact h3 hu e (List.mem_append.mpr (Or.inr (List.mem_cons_of_mem _ hm))) ha
     · simp [List.countP_append, List.countP_cons, Ent.isHolding] at h4 ⊢; omega
   | dec pre post x he =>
     rw [he] at h1 h2 h3 h4
-    refine ⟨?_, ranked_erase h2, ?_, ?_, h5, h6⟩
+    refine ⟨?_, ranked_erase h2, ?_, ?_, h5, h6, h7⟩
     · simp at h1 ⊢; omega
-    · intro e hm ha
+    · intro hu e hm ha
       rcases List.mem_append.mp hm with hm | hm
-      · exact h3 e (List.mem_append.mpr (Or.inl hm)) ha
-      · exact h3 e (List.mem_append.mpr (Or.inr (List.mem_cons_of_mem _ hm))) ha
+      · exact h3 hu e (List.mem_append.mpr (Or.inl hm)) ha
+      · exact h3 hu e (List.mem_append.mpr (Or.inr (List.mem_cons_of_mem _ hm))) ha
     · simpa [List.countP_append, List.countP_cons, Ent.isHolding] using h4
   | rel1 pre post x he =>
     rw [he] at h1 h2 h3 h4
-    refine ⟨?_, ranked_setpc h2, ?_, ?_, h5, h6⟩
+    refine ⟨?_, ranked_setpc h2, ?_, ?_, h5, h6, h7⟩
     · simpa using h1
-    · intro e hm ha
+    · intro hu e hm ha
       rcases List.mem_append.mp hm with hm | hm
-      · exact h3 e (List.mem_append.mpr (Or.inl hm)) ha
+      · exact h3 hu e (List.mem_append.mpr (Or.inl hm)) ha
       · rcases List.mem_cons.mp hm with hm | hm
-        · subst hm; exact h3 ⟨.holding, x⟩ (by simp) (by simp [Ent.adm])
-        · exact h3 e (List.mem_append.mpr (Or.inr (List.mem_cons_of_mem _ hm))) ha
+        · subst hm; exact h3 hu ⟨.holding, x⟩ (by simp) (by simp [Ent.adm])
+        · exact h3 hu e (List.mem_append.mpr (Or.inr (List.mem_cons_of_mem _ hm))) ha
     · simp [List.countP_append, List.countP_cons, Ent.isHolding] at h4 ⊢; omega
   | rel2 pre post x he =>
     rw [he] at h1 h2 h3 h4
-    refine ⟨?_, ranked_erase h2, ?_, ?_, h5, h6⟩
+    refine ⟨?_, ranked_erase h2, ?_, ?_, h5, h6, h7⟩
     · simp at h1 ⊢; omega
-    · intro e hm ha
+    · intro hu e hm ha
       rcases List.mem_append.mp hm with hm | hm
-      · exact h3 e (List.mem_append.mpr (Or.inl hm)) ha
-      · exact h3 e (List.mem_append.mpr (Or.inr (List.mem_cons_of_mem _ hm))) ha
+      · exact h3 hu e (List.mem_append.mpr (Or.inl hm)) ha
+      · exact h3 hu e (List.mem_append.mpr (Or.inr (List.mem_cons_of_mem _ hm))) ha
     · simpa [List.countP_append, List.countP_cons, Ent.isHolding] using h4
 
 theorem linv_ustep {s t : St} (h : LInv s) (st : UStep s t) : LInv t := by
   cases st with
   | base st => exact linv_step h st
-  | update n hn =>
-    obtain ⟨h1, h2, h3, h4, h5, h6⟩ := h
-    refine ⟨h1, h2, ?_, h4, ?_, ?_⟩
-    · intro e he ha; have := h3 e he ha; simp only; omega
+  | update n =>
+    obtain ⟨h1, h2, h3, h4, h5, h6, h7⟩ := h
+    refine ⟨h1, h2, ?_, h4, ?_, ?_, ?_⟩
+    · intro hu e he ha
+      have hu' : s.unl = false := by
+        simp only [Bool.or_eq_false_iff] at hu; exact hu.1
+      have := h3 hu' e he ha; simp only; omega
     · simp only; omega
     · simp only; omega
+    · intro hu
+      simp only [Bool.or_eq_false_iff, decide_eq_false_iff_not] at hu
+      simp only; omega
 
 theorem linv_reach {s t : St} (h : LInv s) (r : Reach UStep s t) : LInv t := by
   induction r with
   | refl => exact h
   | step _ st ih => exact linv_ustep ih st
 
-/-- what the invariant gives: the admitted entities number at most `hi`. -/
-theorem linv_bound {s : St} (h : LInv s) : (s.admitted : Int) ≤ s.hi := by
-  have := count_adm_le s.hi s.ents 1 h.ranked h.adm_le
+/-- what the invariant gives: while the limit has never been switched off, the admitted entities
+    number at most `hi`. -/
+theorem linv_bound {s : St} (h : LInv s) (hu : s.unl = false) : (s.admitted : Int) ≤ s.hi := by
+  have := count_adm_le s.hi s.ents 1 h.ranked (h.adm_le hu)
   have h0 := h.hi_nonneg
   unfold St.admitted
   rcases this with h' | h'
   · rw [h']; exact h0
   · push_cast at h'; omega
 
-/-- `Step` never touches `lim` and `hi`. -/
-theorem step_lim_hi {s t : St} (st : Step s t) : t.lim = s.lim ∧ t.hi = s.hi := by
-  cases st <;> exact ⟨rfl, rfl⟩
+/-- `Step` never touches `lim`, `hi` and `unl`. -/
+theorem step_lim_hi {s t : St} (st : Step s t) : t.lim = s.lim ∧ t.hi = s.hi ∧ t.unl = s.unl := by
+  cases st <;> exact ⟨rfl, rfl, rfl⟩
 
-theorem reach_step_lim_hi {s t : St} (r : Reach Step s t) : t.lim = s.lim ∧ t.hi = s.hi := by
+theorem reach_step_lim_hi {s t : St} (r : Reach Step s t) :
+    t.lim = s.lim ∧ t.hi = s.hi ∧ t.unl = s.unl := by
   induction r with
-  | refl => exact ⟨rfl, rfl⟩
-  | step _ st ih => have := step_lim_hi st; exact ⟨this.1.trans ih.1, this.2.trans ih.2⟩
+  | refl => exact ⟨rfl, rfl, rfl⟩
+  | step _ st ih =>
+    have := step_lim_hi st
+    exact ⟨this.1.trans ih.1, this.2.1.trans ih.2.1, this.2.2.trans ih.2.2⟩
 
 theorem reach_mono {R R' : St → St → Prop} (hR : ∀ a b, R a b → R' a b) {s t : St}
     (r : Reach R s t) : Reach R' s t := by
   induction r with
   | refl => exact .refl
   | step _ st ih => exact .step ih (hR _ _ st)
+
+/-! ## the sequential composition of plugin, accept path and close paths -/
+
+/-- a `take` that returns false leaves all three counters as they were. -/
+theorem take_false_unchanged (c : CL) (h : c.take.2 = false) : c.take.1 = c := by
+  simp only [CL.take] at h ⊢
+  by_cases hx : c.lim ≤ 0 ∨ c.tmp + 1 ≤ c.lim
+  · simp [hx] at h
+  · simp only [hx, if_false]
+    cases c; simp only [CL.mk.injEq, true_and]; omega
+
+/-- the limiter's two counters both equal the number of live sessions; `lim` is the limit in force. -/
+def CInv (lim : Int) (s : Sys) : Prop :=
+  s.ov.conn = some ⟨lim, (s.live : Nat), (s.live : Nat)⟩
+
+/-- a connect in a state with exact counters: admitted iff there is no limit or room under it;
+    the counters stay exact. -/
+theorem cinv_connect {lim : Int} {s : Sys} (h : CInv lim s) :
+    CInv lim s.connect.1 ∧
+    ((s.connect.2 = .admitted ∧ s.connect.1.live = s.live + 1 ∧ (lim ≤ 0 ∨ (s.live : Int) + 1 ≤ lim)) ∨
+     (s.connect.2 = .rejected lim s.live ∧ s.connect.1.live = s.live ∧ 0 < lim ∧ lim ≤ s.live)) := by
+  unfold CInv at h
+  by_cases hx : lim ≤ 0 ∨ ((s.live : Nat) : Int) + 1 ≤ lim
+  · have e : s.connect =
+        (⟨{ s.ov with conn := some ⟨lim, (s.live : Nat) + 1, (s.live : Nat) + 1⟩ },
+          s.sess ++ [⟨true, true⟩]⟩, .admitted) := by
+      unfold Sys.connect OV.takeConn
+      simp only [h, CL.take, hx, if_true]
+    rw [e]
+    have hl : (⟨{ s.ov with conn := some ⟨lim, (s.live : Nat) + 1, (s.live : Nat) + 1⟩ },
+        s.sess ++ [⟨true, true⟩]⟩ : Sys).live = s.live + 1 := by
+      simp [Sys.live, List.countP_append]
+    refine ⟨?_, Or.inl ⟨rfl, hl, hx⟩⟩
+    unfold CInv; rw [hl]; simp
+  · have e : s.connect =
+        (⟨{ s.ov with conn := some ⟨lim, (s.live : Nat), (s.live : Nat) + 1 - 1⟩ },
+          s.sess ++ [⟨false, false⟩]⟩, .rejected lim (s.live : Nat)) := by
+      unfold Sys.connect OV.takeConn
+      simp only [h, CL.take, hx, if_false, Bool.false_eq_true]
+    rw [e]
+    have hl : (⟨{ s.ov with conn := some ⟨lim, (s.live : Nat), (s.live : Nat) + 1 - 1⟩ },
+        s.sess ++ [⟨false, false⟩]⟩ : Sys).live = s.live := by
+      simp [Sys.live, List.countP_append]
+    refine ⟨?_, Or.inr ⟨rfl, hl, by omega, by omega⟩⟩
+    unfold CInv; rw [hl]; simp
+
+/-- a close keeps the counters exact and never raises the number of live sessions. -/
+theorem cinv_close {lim : Int} {s : Sys} (h : CInv lim s) (i : Nat) :
+    CInv lim (s.close i) ∧ (s.close i).live ≤ s.live := by
+  unfold Sys.close
+  cases hs : s.sess[i]? with
+  | none => exact ⟨h, Nat.le_refl _⟩
+  | some x =>
+    obtain ⟨a, o⟩ := x
+    cases o
+    · exact ⟨h, Nat.le_refl _⟩
+    · have hi : i < s.sess.length := by
+        rcases Nat.lt_or_ge i s.sess.length with h | h
+        · exact h
+        · rw [List.getElem?_eq_none h] at hs; cases hs
+      have hg : s.sess[i] = ⟨a, true⟩ := by
+        rw [List.getElem?_eq_getElem hi] at hs; exact Option.some.inj hs
+      simp only [CInv, Sys.live] at h ⊢
+      cases a
+      · -- a session that holds no slot: nothing is released, the live count is unchanged
+        have hl : (List.countP (fun x => x.admitted && x.isOpen) (s.sess.set i ⟨false, false⟩))
+            = List.countP (fun x => x.admitted && x.isOpen) s.sess := by
+          rw [List.countP_set (h := hi), hg]; simp
+        simp only [Bool.false_eq_true, if_false]
+        rw [hl]; exact ⟨h, Nat.le_refl _⟩
+      · have hpos : 1 ≤ List.countP (fun x => x.admitted && x.isOpen) s.sess :=
+          List.countP_pos_iff.mpr ⟨s.sess[i], List.getElem_mem hi, by rw [hg]; rfl⟩
+        have hl : (List.countP (fun x => x.admitted && x.isOpen) (s.sess.set i ⟨true, false⟩))
+            = List.countP (fun x => x.admitted && x.isOpen) s.sess - 1 := by
+          rw [List.countP_set (h := hi), hg]; simp
+        simp only [if_true, OV.releaseConn, h, CL.release]
+        rw [hl]
+        refine ⟨?_, by omega⟩
+        simp only [Option.some.injEq, CL.mk.injEq, true_and]
+        omega
+
+/-- `Update` derives the connection limiter from the old one by `updConn`. -/
+theorem update_conn {o o' : OV} {c : Conf} (h : o.update c = some o') : o'.conn = updConn o.conn c := by
+  unfold OV.update at h
+  simp only [Option.bind_eq_bind, Option.pure_def] at h
+  cases ht : updTotal o.total c with
+  | none => simp [ht] at h
+  | some t =>
+    cases hh : updHandlers o.hq c with
+    | none => simp [ht, hh] at h
+    | some hq =>
+      simp only [ht, hh, Option.bind_some, Option.some.injEq] at h
+      subst h; rfl
+
+/-- `New` starts with a fresh limiter, whatever the sign of `MaxConn`. -/
+theorem new_conn {c : Conf} {o : OV} (ho : OV.new c = some o) : o.conn = some ⟨c.maxConn, 0, 0⟩ := by
+  have := update_conn ho
+  simpa [updConn, CL.new] using this
+
+/-- an `Update` of `MaxConn` — to any value, `<= 0` included — keeps the limiter and its counters:
+    only the limit changes (or nothing at all when `Update` panics). -/
+theorem cinv_update {lim : Int} {s : Sys} (h : CInv lim s) (n : Int) :
+    (CInv n (s.update n) ∨ CInv lim (s.update n)) ∧ (s.update n).sess = s.sess := by
+  unfold Sys.update
+  cases hu : s.ov.update { s.ov.conf with maxConn := n } with
+  | none => exact ⟨Or.inr h, rfl⟩
+  | some o =>
+    refine ⟨Or.inl ?_, rfl⟩
+    have hc := update_conn hu
+    unfold CInv at h ⊢
+    simp only [Sys.live] at h ⊢
+    rw [hc, h]
+    simp [updConn, CL.update]
+
+theorem cinv_run (ops : List SOp) : ∀ {lim : Int} {s : Sys}, CInv lim s → ∃ lim', CInv lim' (s.run ops) := by
+  induction ops with
+  | nil => intro lim s h; exact ⟨lim, h⟩
+  | cons op r ih =>
+    intro lim s h
+    cases op with
+    | connect => exact ih (cinv_connect h).1
+    | close i => exact ih (cinv_close h i).1
+    | update n =>
+      rcases (cinv_update h n).1 with h' | h'
+      · exact ih h'
+      · exact ih h'
+
+/-- invariant of the sequential system under a constant positive limit `lim`: exact counters and at
+    most `lim` live sessions. -/
+def SInv (lim : Int) (s : Sys) : Prop := CInv lim s ∧ 0 < lim ∧ (s.live : Int) ≤ lim
+
+def SOp.isUpdate : SOp → Bool
+  | .update _ => true
+  | _ => false
+
+theorem sinv_run {lim : Int} (ops : List SOp) (hn : ∀ op ∈ ops, op.isUpdate = false) :
+    ∀ {s : Sys}, SInv lim s → SInv lim (s.run ops) := by
+  induction ops with
+  | nil => intro s h; exact h
+  | cons op r ih =>
+    intro s h
+    have hr : ∀ op ∈ r, op.isUpdate = false := fun o ho => hn o (List.mem_cons_of_mem _ ho)
+    cases op with
+    | connect =>
+      have hc := cinv_connect h.1
+      refine ih hr ⟨hc.1, h.2.1, ?_⟩
+      rcases hc.2 with ⟨_, hl, hb⟩ | ⟨_, hl, _, _⟩
+      · rw [hl]; push_cast; have := h.2.1; omega
+      · rw [hl]; exact h.2.2
+    | close i =>
+      have hc := cinv_close h.1 i
+      refine ih hr ⟨hc.1, h.2.1, ?_⟩
+      have := hc.2; have := h.2.2; omega
+    | update n => have := hn (.update n) (List.mem_cons_self ..); simp [SOp.isUpdate] at this
 
 /-! ## token bucket -/
 
@@ -201,16 +370,16 @@ theorem refill_pot (limit once v : Int) (h0 : 0 ≤ once) :
 /-- potential: admissions so far plus the tokens that can still be taken. -/
 def pot (s : QSt) : Int := (s.adm : Int) + max s.tokens 0
 
-/-- one step changes the potential by at most `b` per completed refill, where `b = once` for a
-    refill that is atomic and `b = limit` for a store of a stale value. -/
+/-- one step raises the potential by at most `once` per completed refill (a successful
+    compare-and-swap refills the CURRENT token count; a failed one changes nothing). -/
 theorem pot_step (limit once : Int) (h0 : 0 ≤ once) (h1 : once ≤ limit) (s t : QSt) (e : QEv)
     (hs : qstep limit once s e = some t) :
-    pot t ≤ pot s + (if e.atomicTick then once else limit) * ((t.ticks : Int) - s.ticks)
+    pot t ≤ pot s + once * ((t.ticks : Int) - s.ticks)
     ∧ (s.tokens ≤ limit → t.tokens ≤ limit) ∧ s.ticks ≤ t.ticks := by
   cases e with
   | takeLoad =>
     simp only [qstep, Option.some.injEq] at hs
-    subst hs; split <;> simp [pot, QEv.atomicTick]
+    subst hs; split <;> simp [pot]
   | takeAdd =>
     simp only [qstep] at hs
     split at hs
@@ -219,24 +388,28 @@ theorem pot_step (limit once : Int) (h0 : 0 ≤ once) (h1 : once ≤ limit) (s t
       simp only [Option.some.injEq] at hs
       subst hs
       split
-      · simp only [pot, QEv.atomicTick]; push_cast
+      · simp only [pot]; push_cast
         refine ⟨by omega, by omega, Nat.le_refl _⟩
-      · simp only [pot, QEv.atomicTick]
+      · simp only [pot]
         refine ⟨by omega, by omega, Nat.le_refl _⟩
   | tickLoad =>
     simp only [qstep] at hs
     split at hs
     · simp only [Option.some.injEq] at hs; subst hs; simp [pot]
     · cases hs
-  | tickStore =>
+  | tickCas =>
     simp only [qstep] at hs
     split at hs
     · rename_i v hv
       simp only [Option.some.injEq] at hs; subst hs
-      have := refill_le limit once v h1
-      simp only [pot, QEv.atomicTick]; push_cast
-      refine ⟨?_, fun _ => this, Nat.le_succ _⟩
-      omega
+      split
+      · rename_i heq
+        have := refill_le limit once v h1
+        have hp := refill_pot limit once v h0
+        simp only [pot]; push_cast
+        refine ⟨?_, fun _ => this, Nat.le_succ _⟩
+        rw [heq]; omega
+      · simp [pot]
     · cases hs
   | tick =>
     simp only [qstep] at hs
@@ -244,9 +417,32 @@ theorem pot_step (limit once : Int) (h0 : 0 ≤ once) (h1 : once ≤ limit) (s t
     · simp only [Option.some.injEq] at hs; subst hs
       have := refill_le limit once s.tokens h1
       have hp := refill_pot limit once s.tokens h0
-      simp only [pot, QEv.atomicTick]; push_cast
+      simp only [pot]; push_cast
       refine ⟨?_, fun _ => this, Nat.le_succ _⟩
       omega
     · cases hs
+
+/-- ... and so does every schedule. -/
+theorem pot_run (limit once : Int) (h0 : 0 ≤ once) (h1 : once ≤ limit) (evs : List QEv) :
+    ∀ (s t : QSt), s.tokens ≤ limit → qrun limit once s evs = some t →
+    pot t ≤ pot s + once * ((t.ticks : Int) - s.ticks) ∧ t.tokens ≤ limit ∧ s.ticks ≤ t.ticks := by
+  induction evs with
+  | nil =>
+    intro s t hcap hr
+    simp only [qrun, Option.some.injEq] at hr; subst hr; exact ⟨by simp, hcap, Nat.le_refl _⟩
+  | cons e es ih =>
+    intro s t hcap hr
+    simp only [qrun] at hr
+    cases hq : qstep limit once s e with
+    | none => simp [hq] at hr
+    | some u =>
+      simp only [hq, Option.bind_some] at hr
+      have hs := pot_step limit once h0 h1 s u e hq
+      have hi := ih u t (hs.2.1 hcap) hr
+      refine ⟨?_, hi.2.1, Nat.le_trans hs.2.2 hi.2.2⟩
+      have e1 := hs.1; have e2 := hi.1
+      have : once * ((t.ticks : Int) - s.ticks) = once * ((t.ticks : Int) - u.ticks) + once * ((u.ticks : Int) - s.ticks) := by
+        rw [← Int.mul_add]; congr 1; omega
+      omega
 
 end Teleport.Overload
